@@ -170,6 +170,17 @@ impl Op {
     }
 }
 
+/// `resize` argument: negative values encode huge capacities
+pub fn resize_arg(n: i64) -> usize {
+    match n {
+        -1 => usize::MAX,
+        -2 => usize::MAX / 2 + 1,
+        -3 => 1usize << 62,
+        x if x < 0 => 0,
+        x => x as usize,
+    }
+}
+
 /// which subject(s) an event addresses
 #[derive(Clone, Debug, PartialEq)]
 pub struct Event {
